@@ -199,6 +199,14 @@ def explore_program(program, bound, reduction=True, max_executions=None):
 
     def on_start():
         state["runner"] = ProgramRunner(program, reduction)
+        # every execution child is warmed up with the serial orders before it serves schedules: memoised type
+        # classification makes the very first execution of a process a few lines longer than all later ones, and a
+        # child that replaces a recycled one (long bound-2 searches) would otherwise diverge from recorded prefixes
+        try:
+            for o in serial_orders(program["threads"]):
+                state["runner"].run_serial(o)
+        except Exception:  # noqa: BLE001 - the regular serial runs report whatever is wrong
+            pass
 
     def handler(req):
         mode, arg = req
